@@ -29,6 +29,9 @@ def _fl(flags):
     return flags & SUPPORTED_FLAGS
 
 
+LENIENT = False     # fallback mode of C04: constructs the automata do not model are over-approximated for candidate generation only
+
+
 def _atoms_of(tree, acc, flags=0):
     for op, av in tree:
         if op is LITERAL:
@@ -49,14 +52,27 @@ def _atoms_of(tree, acc, flags=0):
             for b in av[1]:
                 _atoms_of(b, acc, flags)
         elif op is SUBPATTERN:
-            if av[1] or av[2]:
+            if (av[1] or av[2]) and not LENIENT:
                 raise HarnessError('inline flag groups are not supported')
-            _atoms_of(av[3], acc, flags)
+            _atoms_of(av[3], acc, flags | (av[1] or 0) if LENIENT else flags)
         elif op in (MAX_REPEAT, MIN_REPEAT):
             _atoms_of(av[2], acc, flags)
         elif op is AT:
-            if av not in (AT_BEGINNING, AT_END):
+            if av not in (AT_BEGINNING, AT_END) and not LENIENT:
                 raise HarnessError('unsupported anchor %r' % (av,))
+        elif LENIENT:
+            nm = str(op)
+            if nm == 'GROUPREF_EXISTS':
+                _atoms_of(av[1], acc, flags)
+                if av[2] is not None:
+                    _atoms_of(av[2], acc, flags)
+            elif nm in ('ASSERT', 'ASSERT_NOT'):
+                _atoms_of(av[1], acc, flags)
+            elif nm in ('ATOMIC_GROUP',):
+                _atoms_of(av, acc, flags)
+            elif nm in ('POSSESSIVE_REPEAT',):
+                _atoms_of(av[2], acc, flags)
+            # GROUPREF, ANY, NOT_LITERAL, ...: no atoms of their own
         else:
             raise HarnessError('unsupported regex construct %r' % (op,))
 
@@ -443,6 +459,17 @@ class Skeletons(object):
             return out
         if op is AT:
             return [()]
+        if LENIENT:
+            nm = str(op)
+            if nm == 'GROUPREF_EXISTS':
+                return self.seq(av[1]) + (self.seq(av[2]) if av[2] is not None else [()])
+            if nm == 'POSSESSIVE_REPEAT':
+                return self.node(MAX_REPEAT, av)
+            if nm == 'ATOMIC_GROUP':
+                return self.seq(av)
+            if nm == 'ANY':
+                return [(('x', '1', ' '),)]
+            return [()]             # look-arounds, back-references: contribute no characters to a candidate
         raise HarnessError('enumerator: unsupported %r' % (op,))
 
 
